@@ -307,6 +307,21 @@ pub fn corpus() -> Vec<(String, String)> {
     out
 }
 
+/// `struct u64 {..}` / `enum bool {..}` …
+fn declares_type_named_like_primitive(src: &str) -> bool {
+    for kw in ["struct ", "enum "] {
+        let mut from = 0;
+        while let Some(p) = src[from..].find(kw) {
+            let at = from + p + kw.len();
+            let name: String = src[at..].chars().take_while(|c| c.is_ascii_alphanumeric() || *c == '_').collect();
+            if matches!(name.as_str(), "u8" | "u16" | "u32" | "u64" | "u256" | "b256" | "bool" | "str" | "raw_ptr" | "raw_slice") {
+                return true;
+            }
+            from = at;
+        }
+    }
+    false
+}
 /// an array type or repeat expression `[..; N]` with N >= 100000
 fn has_huge_array_length(src: &str) -> bool {
     let b = src.as_bytes();
@@ -364,6 +379,12 @@ fn eval(case: &MutCase, rep: &Report, corpus: &[(String, String)], kf: &KnownFin
         rep.class("mutant:identical-to-origin");
         return Ok(());
     }
+    if declares_type_named_like_primitive(&src) {
+        // recorded finding (pinned below): the derived AbiEncode/AbiDecode impl of `struct u64 {}` is generated as text and
+        // re-parsed; that fails and the result is unwrapped; excluded from the campaign by construction
+        rep.class("mutant:type-named-like-primitive(excluded)");
+        return Ok(());
+    }
     if has_huge_array_length(&src) {
         // recorded finding (pinned below): constant evaluation materializes `[v; N]` element by element, so an absurd N
         // panics with "capacity overflow" or exhausts memory; excluded from the campaign by construction
@@ -402,7 +423,7 @@ fn eval(case: &MutCase, rep: &Report, corpus: &[(String, String)], kf: &KnownFin
                     return Ok(());
                 }
             }
-            let sig = format!("compiler-process-died:{died}");
+            let sig = format!("compiler-process-died:{died}:src-{}", hash_hex(src.as_bytes()));
             return Err((sig, format!("compiling a mutated program ({origin}) killed the compiler process: {died}"), json!({"origin": origin, "mutations": format!("{:?}", case.muts), "src": src})));
         }
     };
@@ -437,11 +458,38 @@ fn eval(case: &MutCase, rep: &Report, corpus: &[(String, String)], kf: &KnownFin
     Ok(())
 }
 
-/// Second campaign of C17 (called from progprops::run_c17 with the shared report).
-pub fn run_mutants(ctx: &Ctx, rep: &Report, cases: u64) {
-    let corpus = corpus();
-    rep.class_n("mutants:corpus-files", corpus.len() as u64);
+/// Recorded mutant cases (`/verif/corpus/C17/*.json`: {src, ..}) are compiled again on every run: each must compile to
+/// artifacts / diagnostics or die with a *listed* signature.
+pub fn run_corpus(rep: &Report) {
     let kf = KnownFindings::load();
+    for f in walk_files(&verif_root().join("corpus/C17"), ".json") {
+        let Some(txt) = read_to_string_lossy(&f) else { continue };
+        let Ok(v) = serde_json::from_str::<serde_json::Value>(&txt) else { continue };
+        let Some(src) = v["src"].as_str() else { continue };
+        rep.eval();
+        rep.class("corpus:recorded-mutant");
+        let name = f.file_name().map(|n| n.to_string_lossy().to_string()).unwrap_or_default();
+        match isolated_compile(src) {
+            Ok(levels) => {
+                for l in levels.iter() {
+                    if let LevelOutcome::Internal { sig, first, .. } = l {
+                        let _ = &kf;
+                        rep.violation(Violation { signature: sig.clone(), summary: format!("recorded mutant {name}: {}", truncate(first, 200)), replay: json!({"corpus_file": name, "src": src}) });
+                        break;
+                    }
+                }
+            }
+            Err(died) if died == "timeout" => rep.class("corpus:compile-timeout"),
+            Err(died) => {
+                rep.violation(Violation { signature: format!("compiler-process-died:{died}:src-{}", hash_hex(src.as_bytes())), summary: format!("recorded mutant {name} kills the compiler process ({died})"), replay: json!({"corpus_file": name, "src": src}) });
+            }
+        }
+    }
+    drop_worker();
+}
+
+/// The pinned minimal cases of the recorded findings.
+pub fn run_pinned(rep: &Report) {
     // pinned case of the recorded finding (its shape is excluded from the inserted declarations and counted when a
     // mutation re-creates it)
     let pinned = "script;\nstruct S {}\nimpl S { fn g9(self) -> u64 { self.g9() } }\nfn main() -> u64 { 1 }\n";
@@ -465,6 +513,21 @@ pub fn run_mutants(ctx: &Ctx, rep: &Report, cases: u64) {
         }
         Err(_) => {}
     }
+    let pinned_prim = "script;\nstruct u64 {}\nfn main() {}\n";
+    if let Ok(levels) = isolated_compile(pinned_prim) {
+        if let LevelOutcome::Internal { sig, first, .. } = &levels[0] {
+            rep.violation(Violation { signature: sig.clone(), summary: format!("pinned case (struct named like a primitive type): {}", truncate(first, 200)), replay: json!({"src": pinned_prim}) });
+        }
+    }
+    drop_worker();
+}
+
+/// Second campaign of C17 (called from progprops::run_c17 with the shared report).
+pub fn run_mutants(ctx: &Ctx, rep: &Report, cases: u64) {
+    let corpus = corpus();
+    rep.class_n("mutants:corpus-files", corpus.len() as u64);
+    let kf = KnownFindings::load();
+    run_pinned(rep);
     drop_worker();
     let out = run_prop(ctx, 171, cases, mut_case, |case| match eval(case, rep, &corpus, &kf) {
         Ok(()) => Ok(()),
